@@ -42,6 +42,12 @@ def cases(tier):
                         for sl in (STEPLISTS if not q else ('vary3', 'close3', 'tiny_fast')):
                             for h in ((0.1, 0.01) if not q else (0.1,)):
                                 yield {'kind': 'schemes', 'dims': list(dims), 'ro': ro, 'fam': fam, 'rx': rx, 'steps': sl, 'h': h}
+    # state spaces with a size-1 mode among larger ones (every normalisation, Markov and generic operators)
+    for dims in ([1, 3], [3, 1], [2, 1, 3], [1, 3, 2], [2, 3, 1]):
+        for ro in (1, 2):
+            for fam in ('real', 'markov'):
+                for rx in admissible_ranks(list(dims)):
+                    yield {'kind': 'schemes', 'dims': list(dims), 'ro': ro, 'fam': fam, 'rx': rx, 'steps': 'vary3', 'h': 0.1}
     for cplx in (False, True):
         yield {'kind': 'bigrank', 'dims': [56, 56], 'c': cplx}
     for dims in ([2, 2], [3, 2], [2, 2, 2]):
